@@ -147,7 +147,7 @@ Qed.
 Lemma tagged_nodes_In ix n : In n (tagged_nodes ix) <-> exists t, In (RTag t, n) ix.
 Proof.
   unfold tagged_nodes. rewrite in_flat_map. split.
-  - intros ([r m] & He & Hn). simpl in Hn. destruct r; simpl in Hn; [|contradiction].
+  - intros ([r m] & He & Hn). simpl in Hn. destruct r; simpl in Hn; try contradiction.
     destruct Hn as [<-|[]]. eauto.
   - intros (t & H). exists (RTag t, n). split; [assumption|now left].
 Qed.
@@ -156,7 +156,7 @@ Lemma candidates_In ix n :
   In n (candidates ix) <-> (exists d, In (RDig d, n) ix) /\ ~ In n (tagged_nodes ix).
 Proof.
   unfold candidates. rewrite in_flat_map. split.
-  - intros ([r m] & He & Hn). simpl in Hn. destruct r; simpl in Hn; [contradiction|].
+  - intros ([r m] & He & Hn). simpl in Hn. destruct r; simpl in Hn; try contradiction.
     destruct (memb m (tagged_nodes ix)) eqn:E; [contradiction|].
     destruct Hn as [<-|[]]. apply memb_false in E. eauto.
   - intros ((d & H) & Hn). exists (RDig d, n). split; [assumption|]. simpl.
@@ -220,7 +220,7 @@ Proof. unfold do_walk. cbn [fixF1 cfg_fixed]. apply walk_spec. lia. Qed.
 Lemma keep_step_spec g kept ch n :
   GInv g kept -> In n (candidates ix) ->
   exists g' kept' ch',
-    keep_step succ subject cfg_fixed bl (g, kept, ch, false) n = (g', kept', ch', false) /\
+    keep_step succ subject manifest cfg_fixed bl (g, kept, ch, false) n = (g', kept', ch', false) /\
     GInv g' kept' /\
     (forall x, In x g -> In x g') /\
     ((ch' = ch /\ g' = g /\ kept' = kept /\
@@ -257,7 +257,7 @@ Qed.
 Lemma pass_spec : forall l g kept ch,
   GInv g kept -> (forall n, In n l -> In n (candidates ix)) ->
   exists g' kept' ch',
-    fold_left (keep_step succ subject cfg_fixed bl) l (g, kept, ch, false) = (g', kept', ch', false) /\
+    fold_left (keep_step succ subject manifest cfg_fixed bl) l (g, kept, ch, false) = (g', kept', ch', false) /\
     GInv g' kept' /\
     ((ch' = ch /\ g' = g /\ kept' = kept /\
       forall n, In n l -> In n kept \/ ~ exists s, Chain bl n s /\ In s g) \/
@@ -286,7 +286,7 @@ Proof. intro I. apply NoDup_incl_length; [apply (gi_nodup _ _ I)|]. intros r. ap
 Lemma gc_passes_spec : forall fuel i g kept,
   GInv g kept -> length (candidates ix) < fuel + length kept ->
   exists g' kept',
-    gc_passes succ subject cfg_fixed bl ords fuel i g kept = Some (g', kept') /\
+    gc_passes succ subject manifest cfg_fixed bl ords fuel i g kept = Some (g', kept') /\
     GInv g' kept' /\
     forall n, In n (candidates ix) -> In n kept' \/ ~ exists s, Chain bl n s /\ In s g'.
 Proof.
@@ -302,11 +302,11 @@ Qed.
 
 Lemma gc_index_spec (kl : bool) :
   exists ix' g,
-    gc_index succ subject cfg_fixed kl ords st = Some (ix', g) /\
+    gc_index succ subject manifest cfg_fixed kl ords st = Some (ix', g) /\
     (forall x, In x g <-> Live x) /\
     (forall t n, In (RTag t, n) ix' <-> In (RTag t, n) ix).
 Proof.
-  unfold gc_index. fold ix bl.
+  unfold gc_index. fold ix bl. change (clo succ manifest cfg_fixed bl) with (closure succ bl).
   destruct (gc_passes_spec (S (length (candidates ix))) 0 _ [] GInv_init ltac:(simpl; lia))
     as (g & kept & Hp & I & Hfin).
   rewrite Hp. eexists _, g. split; [reflexivity|]. split.
@@ -335,7 +335,7 @@ End GC.
 Lemma gc_exact : forall (kl : bool) (ords : nat -> list nat) (st : state),
   (forall i n, In n (ords i) <-> In n (candidates (idx st))) ->
   exists st',
-    gc succ subject cfg_fixed kl ords st = (st', Ok) /\
+    gc succ subject manifest cfg_fixed kl ords st = (st', Ok) /\
     (forall x, In x (gnodes st') <-> Live st x) /\
     (forall x, In x (blobs st') <-> In x (blobs st) /\ Live st x) /\
     (forall t n, In (RTag t, n) (idx st') <-> In (RTag t, n) (idx st)) /\
@@ -360,7 +360,7 @@ Qed.
 (* every live node keeps exactly its live predecessors *)
 Lemma gc_preds : forall kl ords st st',
   (forall i n, In n (ords i) <-> In n (candidates (idx st))) ->
-  gc succ subject cfg_fixed kl ords st = (st', Ok) ->
+  gc succ subject manifest cfg_fixed kl ords st = (st', Ok) ->
   forall x p, In p (preds succ (gnodes st') x) <-> Live st p /\ In x (succ p).
 Proof.
   intros kl ords st st' Ho Hgc x p.
@@ -372,13 +372,14 @@ Qed.
 (* ================================================================== *)
 (* Part 2: Delete with AutoGC *)
 
-Lemma is_tagged_spec st n : is_tagged st n = true <-> exists t, In (RTag t, n) (idx st).
+Lemma is_tagged_spec st n :
+  is_tagged st n = true <-> exists t, In (RTag t, n) (idx st) \/ In (RStale t, n) (idx st).
 Proof.
   unfold is_tagged. rewrite existsb_exists. split.
-  - intros ([r m] & He & H). unfold is_tag_entry in H. simpl in H. destruct r; [|discriminate].
-    apply Nat.eqb_eq in H. subst. eauto.
-  - intros (t & H). exists (RTag t, n). split; [assumption|]. unfold is_tag_entry. simpl.
-    apply Nat.eqb_refl.
+  - intros ([r m] & He & H). unfold is_tag_entry in H. simpl in H. destruct r; try discriminate;
+      apply Nat.eqb_eq in H; subst; eauto.
+  - intros (t & [H|H]); [exists (RTag t, n)|exists (RStale t, n)]; (split; [assumption|]);
+      unfold is_tag_entry; simpl; apply Nat.eqb_refl.
 Qed.
 
 Lemma preds_In g n p : In p (preds succ g n) <-> In p g /\ In n (succ p).
@@ -451,9 +452,12 @@ Lemma tagged_same st proc y :
   (forall e, In e (idx st) <-> In e (idx st0) /\ ~ In (snd e) proc) ->
   ~ In y proc -> is_tagged st y = is_tagged st0 y.
 Proof.
-  intros Hi Hy. apply eq_true_iff_eq. rewrite !is_tagged_spec. split; intros (t & H); exists t.
-  - now apply Hi in H.
-  - apply Hi. split; [assumption|exact Hy].
+  intros Hi Hy. apply eq_true_iff_eq. rewrite !is_tagged_spec.
+  split; intros (t & [H|H]); exists t.
+  - left. now apply Hi in H.
+  - right. now apply Hi in H.
+  - left. apply Hi. split; [assumption|exact Hy].
+  - right. apply Hi. split; [assumption|exact Hy].
 Qed.
 
 Lemma seen_bound seen : NoDup seen -> (forall y, In y seen -> y = x \/ In y G) ->
@@ -486,7 +490,7 @@ Proof.
       assert (Hh_b : memb h (blobs st) = true).
       { apply memb_In. apply (di_b _ _ _ _ I). split; assumption. }
       cbn [delete_loop]. unfold delete_one. rewrite Hh_b. rewrite (di_a _ _ _ _ I).
-      cbn [andb fixF3 fixF4 cfg_fixed negb orb].
+      cbn [andb fixF3 fixF4 fixLeaf skipLinked cfg_fixed negb orb].
       set (st' := {| blobs := removeb h (blobs st);
                      idx := filter (fun e => negb (snd e =? h)) (idx st);
                      gnodes := removeb h (gnodes st);
@@ -494,7 +498,8 @@ Proof.
       set (refs := if manifest h
                    then filter (fun r => negb (is_tagged st r)) (referrers succ subject (gnodes st) h)
                    else []).
-      set (dang' := filter (fun d => negb (is_tagged st' d)) (danglings succ (gnodes st) h)).
+      set (dang' := filter (fun d => memb d (blobs st') && negb (is_tagged st' d))
+                           (danglings succ (gnodes st) h)).
       set (batch := ord k (refs ++ dang')).
       set (fresh := dedup (filter (fun y => negb (memb y seen)) batch)).
       assert (Hfresh : forall y, In y fresh <-> (In y refs \/ In y dang') /\ ~ In y seen).
@@ -519,16 +524,19 @@ Proof.
         - simpl. split; [tauto|]. intros [H _]. discriminate. }
       assert (Hdang : forall d, In d dang' <->
                 In d (danglings succ (gnodes st) h) /\ is_tagged st0 d = false).
-      { intro d. unfold dang'. rewrite filter_In, negb_true_iff.
-        split; intros [Hd Ht]; (split; [assumption|]).
-        - rewrite <- (tagged_same st' (proc ++ [h]) d Hidx'); [assumption|].
-          apply danglings_In in Hd as (_ & Hs & Hg & _). apply (di_g _ _ _ _ I) in Hg.
-          rewrite in_app_iff. simpl. intros [H|[H|[]]]; [tauto|].
-          apply succ_lt in Hs. lia.
-        - rewrite (tagged_same st' (proc ++ [h]) d Hidx'); [assumption|].
-          apply danglings_In in Hd as (_ & Hs & Hg & _). apply (di_g _ _ _ _ I) in Hg.
-          rewrite in_app_iff. simpl. intros [H|[H|[]]]; [tauto|].
-          apply succ_lt in Hs. lia. }
+      { intro d. unfold dang'. rewrite filter_In, andb_true_iff, negb_true_iff, memb_In.
+        assert (Hfacts : In d (danglings succ (gnodes st) h) ->
+                         ~ In d (proc ++ [h]) /\ In d (blobs st')).
+        { intro Hd. apply danglings_In in Hd as (_ & Hs & Hg & _). apply (di_g _ _ _ _ I) in Hg.
+          apply succ_lt in Hs. split.
+          - rewrite in_app_iff. simpl. intros [H|[H|[]]]; [tauto|lia].
+          - unfold st'. cbn [blobs]. apply removeb_In. split; [|lia].
+            apply (di_b _ _ _ _ I). split; [apply wf_sub|]; tauto. }
+        split.
+        - intros (Hd & _ & Ht). split; [assumption|]. destruct (Hfacts Hd) as [Hp _].
+          rewrite <- (tagged_same st' (proc ++ [h]) d Hidx'); assumption.
+        - intros (Hd & Ht). destruct (Hfacts Hd) as [Hp Hb]. repeat split; try assumption.
+          rewrite (tagged_same st' (proc ++ [h]) d Hidx'); assumption. }
       assert (I' : DInv st' (q ++ fresh) (seen ++ fresh) (proc ++ [h])).
       { constructor.
         - rewrite Hseen. rewrite <- !app_assoc. reflexivity.
@@ -738,6 +746,69 @@ Proof.
   apply H. intros y [].
 Qed.
 
+
+(* the repaired code never records a stale tag-set entry: [is_tagged] is "has a tag" *)
+Definition no_stale (st : state) : Prop := forall t n, ~ In (RStale t, n) (idx st).
+
+Lemma delete_loop_no_stale c ord : forall fuel k st queue seen,
+  no_stale st -> no_stale (fst (delete_loop succ subject manifest c ord fuel k st queue seen)).
+Proof.
+  induction fuel as [|f IH]; intros k st queue seen Hw; [exact Hw|].
+  cbn [delete_loop]. destruct queue as [|h q]; [exact Hw|].
+  unfold delete_one.
+  assert (Hw' : no_stale {| blobs := removeb h (blobs st);
+                            idx := filter (fun e => negb (snd e =? h)) (idx st);
+                            gnodes := removeb h (gnodes st);
+                            strays := strays st; autogc := autogc st |}).
+  { intros t n H. simpl in H. apply filter_In in H as [H _]. now apply (Hw t n). }
+  destruct (memb h (blobs st)); [|exact Hw'].
+  apply IH. exact Hw'.
+Qed.
+
+Lemma set_ref_stale r m ix t n : In (RStale t, n) (set_ref r m ix) -> r = RStale t \/ In (RStale t, n) ix.
+Proof.
+  unfold set_ref. intros [H|H]; [left; congruence|]. apply filter_In in H. tauto.
+Qed.
+
+Lemma step_no_stale kl st o : no_stale st -> no_stale (fst (step succ subject manifest cfg_fixed kl st o)).
+Proof.
+  intro Hw. destruct o as [n|n t|t|n| |b|s]; simpl.
+  - unfold push. destruct (memb n (blobs st)); [exact Hw|]. intros t m H. cbn [fst idx] in H.
+    destruct (manifest n); [|now apply (Hw t m)].
+    apply set_ref_stale in H as [H|H]; [discriminate|now apply (Hw t m)].
+  - unfold tag. destruct (memb n (blobs st)); [|exact Hw]. intros t' m H. cbn [fst idx] in H.
+    apply set_ref_stale in H as [H|H]; [discriminate|].
+    apply set_ref_stale in H as [H|H]; [discriminate|].
+    destruct (lookup (RTag t) (idx st)); cbn [fixStale cfg_fixed orb app] in H; now apply (Hw t' m).
+  - unfold untag. destruct (lookup (RTag t) (idx st)); [|exact Hw]. intros t' m H. simpl in H.
+    apply filter_In in H as [H _]. now apply (Hw t' m).
+  - unfold delete. apply delete_loop_no_stale. exact Hw.
+  - unfold gc. destruct (gc_index succ subject manifest cfg_fixed kl _ st) as [[ix g]|] eqn:E; [|exact Hw].
+    intros t m H. simpl in H. unfold gc_index in E.
+    destruct (gc_passes _ _ _ _ _ _ _ _ _ _) as [[g' kept]|]; [|discriminate].
+    injection E as <- <-. apply in_app_or in H as [H|H].
+    + apply filter_In in H as [_ H]. discriminate.
+    + apply in_map_iff in H as (x & Hx & _). discriminate.
+  - exact Hw.
+  - exact Hw.
+Qed.
+
+Lemma run_no_stale kl ops :
+  no_stale (fold_left (fun st o => fst (step succ subject manifest cfg_fixed kl st o)) ops init).
+Proof.
+  assert (H : forall st, no_stale st ->
+     no_stale (fold_left (fun st o => fst (step succ subject manifest cfg_fixed kl st o)) ops st)).
+  { induction ops as [|o ops IH]; intros st Hw; [exact Hw|]. simpl. apply IH. now apply step_no_stale. }
+  apply H. intros t n [].
+Qed.
+
+Lemma no_stale_tagged st n : no_stale st -> (is_tagged st n = true <-> exists t, In (RTag t, n) (idx st)).
+Proof.
+  intro Hn. rewrite is_tagged_spec. split.
+  - intros (t & [H|H]); [eauto|]. exfalso. now apply (Hn t n).
+  - intros (t & H). eauto.
+Qed.
+
 End Proofs.
 
 (* ================================================================== *)
@@ -746,22 +817,24 @@ End Proofs.
 Definition succ_w (n : nat) : list nat :=
   match n with
   | 1 => [0] | 2 => [1; 0] | 3 => [1; 2] | 4 => [2] | 5 => [0] | 6 => [1; 5] | 7 => [5; 0]
+  | 8 => [2; 0]
   | _ => []
   end.
 Definition subject_w (n : nat) : option nat :=
-  match n with 2 => Some 1 | 3 => Some 1 | 6 => Some 1 | 7 => Some 5 | _ => None end.
+  match n with 2 => Some 1 | 3 => Some 1 | 6 => Some 1 | 7 => Some 5 | 8 => Some 2 | _ => None end.
 Definition manifest_w (n : nat) : bool := match n with 0 => false | _ => true end.
 (* 0 blob; 1 image; 2 image with subject 1; 3 index with subject 1 listing 2;
-   4 index listing 2; 5 image; 6 index with subject 1 listing 5; 7 image with subject 5 *)
+   4 index listing 2; 5 image; 6 index with subject 1 listing 5; 7 image with subject 5;
+   8 image with subject 2 *)
 
 Lemma succ_w_lt : forall n s, In s (succ_w n) -> s < n.
 Proof.
-  intros n s. do 8 (destruct n as [|n]; [simpl; intuition lia|]). simpl. tauto.
+  intros n s. do 9 (destruct n as [|n]; [simpl; intuition lia|]). simpl. tauto.
 Qed.
 
 Lemma subj_w_succ : forall n s, subject_w n = Some s -> In s (succ_w n).
 Proof.
-  intros n s. do 8 (destruct n as [|n]; [simpl; intro H; try discriminate; injection H as <-; tauto|]).
+  intros n s. do 9 (destruct n as [|n]; [simpl; intro H; try discriminate; injection H as <-; tauto|]).
   simpl. discriminate.
 Qed.
 
@@ -777,7 +850,8 @@ Lemma gc_orig_hangs :
 Proof. vm_compute. reflexivity. Qed.
 
 (* F3: without the repair a tagged referrer is deleted together with its tag *)
-Definition cfg_noF3 := {| fixF1 := true; fixF3 := false; fixF4 := true; fixF13 := true |}.
+Definition cfg_noF3 := {| fixF1 := true; fixF3 := false; fixF4 := true; fixF13 := true;
+  fixStale := true; fixLeaf := true; skipLinked := false |}.
 Lemma delete_noF3_removes_tagged :
   let st := run_w cfg_fixed [OPush 0; OPush 1; OPush 2; OTag 2 0] in
   let st' := fst (delete succ_w subject_w manifest_w cfg_noF3 ord_id st 1) in
@@ -785,7 +859,8 @@ Lemma delete_noF3_removes_tagged :
 Proof. vm_compute. intuition (try discriminate). Qed.
 
 (* F4: without the repair the outcome depends on the iteration order *)
-Definition cfg_noF4 := {| fixF1 := true; fixF3 := true; fixF4 := false; fixF13 := true |}.
+Definition cfg_noF4 := {| fixF1 := true; fixF3 := true; fixF4 := false; fixF13 := true;
+  fixStale := true; fixLeaf := true; skipLinked := false |}.
 Definition ord_rev (k : nat) (l : list nat) : list nat := rev l.
 Lemma delete_noF4_order_dependent :
   let st := run_w cfg_fixed [OPush 0; OPush 1; OPush 2; OPush 3] in
@@ -794,11 +869,12 @@ Lemma delete_noF4_order_dependent :
 Proof. vm_compute. split; reflexivity. Qed.
 
 (* F13: a single referrer pass keeps 7 or sweeps it depending on the order *)
-Definition cfg_noF13 := {| fixF1 := true; fixF3 := true; fixF4 := true; fixF13 := false |}.
+Definition cfg_noF13 := {| fixF1 := true; fixF3 := true; fixF4 := true; fixF13 := false;
+  fixStale := true; fixLeaf := true; skipLinked := false |}.
 Lemma gc_noF13_order_dependent :
   let st := run_w cfg_fixed [OPush 0; OPush 1; OPush 5; OPush 6; OPush 7; OTag 1 0] in
-  In 7 (blobs (fst (gc succ_w subject_w cfg_noF13 false (fun _ => [6; 7; 5]) st))) /\
-  ~ In 7 (blobs (fst (gc succ_w subject_w cfg_noF13 false (fun _ => [7; 6; 5]) st))) /\
+  In 7 (blobs (fst (gc succ_w subject_w manifest_w cfg_noF13 false (fun _ => [6; 7; 5]) st))) /\
+  ~ In 7 (blobs (fst (gc succ_w subject_w manifest_w cfg_noF13 false (fun _ => [7; 6; 5]) st))) /\
   (forall n, In n [6; 7; 5] <-> In n (candidates (idx st))).
 Proof.
   vm_compute. split; [|split].
@@ -814,6 +890,50 @@ Lemma delete_referrer_still_linked :
   snd (delete succ_w subject_w manifest_w cfg_fixed ord_id st 1) = Ok /\
   ~ In 2 (blobs st') /\ In 4 (gnodes st') /\ In 2 (succ_w 4).
 Proof. vm_compute. intuition discriminate. Qed.
+
+(* pre-repair resolver.Memory.Tag: tag 0 is moved from 5 to 1; deleting the index 6 that
+   lists 5 leaves 5 behind because its tag set still holds the moved reference *)
+Definition cfg_noStale := {| fixF1 := true; fixF3 := true; fixF4 := true; fixF13 := true;
+  fixStale := false; fixLeaf := true; skipLinked := false |}.
+Definition stale_ops := [OPush 0; OPush 5; OPush 6; OPush 1; OTag 5 0; OTag 1 0].
+Lemma delete_stale_tag_leaves_garbage :
+  let st := run_w cfg_noStale stale_ops in
+  let st' := fst (delete succ_w subject_w manifest_w cfg_noStale ord_id st 6) in
+  let fx := run_w cfg_fixed stale_ops in
+  let fx' := fst (delete succ_w subject_w manifest_w cfg_fixed ord_id fx 6) in
+  lookup (RTag 0) (idx st) = Some 1 /\ (forall t, ~ In (RTag t, 5) (idx st)) /\
+  In 5 (blobs st') /\ (forall p, In p (gnodes st') -> ~ In 5 (succ_w p)) /\
+  ~ In 5 (blobs fx') /\ blobs fx' = [1; 0].
+Proof.
+  vm_compute. repeat split; try discriminate; try tauto.
+  - intros t H. intuition discriminate.
+  - intros p H. intuition (subst; simpl in *; intuition discriminate).
+  - intuition discriminate.
+Qed.
+
+(* pre-repair Delete: after GC the never-stored config 0 of the tagged image 1 is a graph
+   node; deleting 1 queues it and aborts with not found *)
+Definition cfg_noLeaf := {| fixF1 := true; fixF3 := true; fixF4 := true; fixF13 := true;
+  fixStale := true; fixLeaf := false; skipLinked := false |}.
+Definition leaf_ops := [OPush 1; OTag 1 0; OGC].
+Lemma delete_absent_leaf_aborts :
+  let st := run_w cfg_noLeaf leaf_ops in
+  In 1 (blobs st) /\ In 0 (gnodes st) /\ ~ In 0 (blobs st) /\
+  snd (delete succ_w subject_w manifest_w cfg_noLeaf ord_id st 1) = ENotFound /\
+  snd (delete succ_w subject_w manifest_w cfg_fixed ord_id (run_w cfg_fixed leaf_ops) 1) = Ok.
+Proof. vm_compute. intuition discriminate. Qed.
+
+(* the "small" repair candidate for the known finding -- queue a referrer only when all its
+   predecessors are already queued -- breaks referrer chains: 2 (referrer of 1) is held by
+   its own referrer 8, so deleting 1 leaves 2 and 8 behind as garbage nobody else links to *)
+Definition cfg_skipLinked := {| fixF1 := true; fixF3 := true; fixF4 := true; fixF13 := true;
+  fixStale := true; fixLeaf := true; skipLinked := true |}.
+Lemma delete_skip_linked_leaves_chain :
+  let st := run_w cfg_fixed [OPush 0; OPush 1; OPush 2; OPush 8] in
+  blobs (fst (delete succ_w subject_w manifest_w cfg_skipLinked ord_id st 1)) = [8; 2; 0] /\
+  blobs (fst (delete succ_w subject_w manifest_w cfg_fixed ord_id st 1)) = [] /\
+  is_tagged st 2 = false /\ is_tagged st 8 = false.
+Proof. vm_compute. repeat split. Qed.
 
 (* the hypotheses of the theorems are satisfiable on a non-trivial history *)
 Lemma example_gc :
@@ -840,11 +960,11 @@ Definition same_elements (ords : nat -> list nat) (l : list nat) : Prop :=
 Definition reorders (ord : nat -> list nat -> list nat) : Prop :=
   forall k l y, In y (ord k l) <-> In y l.
 
-Lemma gc_exact_final : forall succ subject,
+Lemma gc_exact_final : forall succ subject manifest,
   acyclic succ -> subject_listed succ subject ->
   forall kl ords st, same_elements ords (candidates (idx st)) ->
   exists st',
-    gc succ subject cfg_fixed kl ords st = (st', Ok) /\
+    gc succ subject manifest cfg_fixed kl ords st = (st', Ok) /\
     (forall x, In x (blobs st') <-> In x (blobs st) /\ Live succ subject st x) /\
     (forall x, In x (gnodes st') <-> Live succ subject st x) /\
     (forall t n, In (RTag t, n) (idx st') <-> In (RTag t, n) (idx st)) /\
@@ -852,20 +972,20 @@ Lemma gc_exact_final : forall succ subject,
     (forall s, In s (strays st') <-> In s (strays st) /\ (s_known s && s_valid s = false)) /\
     autogc st' = autogc st.
 Proof.
-  intros succ subject H1 H2 kl ords st Ho.
-  destruct (gc_exact succ subject (fun _ => true) H1 H2 kl ords st Ho) as (st' & Hg & A & B & C & D & E).
+  intros succ subject manifest H1 H2 kl ords st Ho.
+  destruct (gc_exact succ subject manifest H1 H2 kl ords st Ho) as (st' & Hg & A & B & C & D & E).
   exists st'. split; [exact Hg|]. split; [exact B|]. split; [exact A|]. split; [exact C|].
   split; [|split; [exact D|exact E]].
-  exact (gc_preds succ subject (fun _ => true) H1 H2 kl ords st st' Ho Hg).
+  exact (gc_preds succ subject manifest H1 H2 kl ords st st' Ho Hg).
 Qed.
 
-Lemma gc_terminates_final : forall succ subject,
+Lemma gc_terminates_final : forall succ subject manifest,
   acyclic succ -> subject_listed succ subject ->
   forall kl ords st, same_elements ords (candidates (idx st)) ->
-  snd (gc succ subject cfg_fixed kl ords st) = Ok.
+  snd (gc succ subject manifest cfg_fixed kl ords st) = Ok.
 Proof.
-  intros succ subject H1 H2 kl ords st Ho.
-  destruct (gc_exact_final succ subject H1 H2 kl ords st Ho) as (st' & Hg & _). now rewrite Hg.
+  intros succ subject manifest H1 H2 kl ords st Ho.
+  destruct (gc_exact_final succ subject manifest H1 H2 kl ords st Ho) as (st' & Hg & _). now rewrite Hg.
 Qed.
 
 Lemma delete_exact_final : forall succ subject manifest,
@@ -937,3 +1057,8 @@ Proof. split; [exact walk_orig_diverges|exact gc_orig_hangs]. Qed.
 
 Lemma hyps_satisfiable : acyclic succ_w /\ subject_listed succ_w subject_w.
 Proof. split; [exact succ_w_lt|exact subj_w_succ]. Qed.
+
+Lemma no_stale_final : forall succ subject manifest kl ops,
+  let st := fold_left (fun st o => fst (step succ subject manifest cfg_fixed kl st o)) ops init in
+  forall n, is_tagged st n = true <-> exists t, In (RTag t, n) (idx st).
+Proof. intros. apply no_stale_tagged. apply run_no_stale. Qed.
